@@ -80,6 +80,8 @@ func (e *influxDec) Decode() error {
 				fVal = float64(v.(int64))
 			case float64:
 				fVal = v.(float64)
+			case uint64:
+				fVal = float64(v.(uint64))
 			default:
 				continue
 			}
